@@ -37,7 +37,7 @@ theorem dictPage_written (cfg : Config) (leaf : LeafInfo) (dl : DictLayout) (a :
     (hlen : a.bytes.length < 2 ^ 31) (hus : a.usize < 2 ^ 31)
     (ho : ∀ e ∈ a.oracle, oracleLookup cfg.oracle e.1 = some e.2) :
     ∃ p : RawPage, readRawPage cfg dl.comp.codec (a.bytes ++ rest) = .ok p ∧ p.hdr.type = 2 ∧ p.rest = rest ∧
-      p.size = a.bytes.length ∧
+      p.size = a.bytes.length ∧ RawPage.usize p = a.usize ∧
       ∃ kh, p.hdr.dict = some kh ∧ decodeDictPage leaf kh p.page = .ok dl.values := by
   obtain ⟨comp, hc, hbytes, horacle, husize⟩ := writeDictPage_adm hd h1
   have hbody : (plainEncode leaf dl.values).length < 2 ^ 31 := by omega
@@ -61,8 +61,11 @@ theorem dictPage_written (cfg : Config) (leaf : LeafInfo) (dl : DictLayout) (a :
   have hraw := readRawPage_of cfg dl.comp.codec dl.form fs _ dl.crc (plainEncode leaf dl.values) comp rest hpwf hf2
     (Or.inr rfl) rfl rfl rfl hdecomp
   rw [← hbytes] at hraw
-  refine ⟨_, hraw, rfl, rfl, ?_, _, rfl, ?_⟩
+  refine ⟨_, hraw, rfl, rfl, ?_, ?_, _, rfl, ?_⟩
   · rw [hbytes]; simp
+  · rw [husize, hhdr]
+    simp only [RawPage.usize]
+    omega
   · have h3 := plainValues_written leaf dl.values hvalid [] (fun _ => rfl)
     simp only [List.append_nil] at h3
     unfold decodeDictPage
@@ -153,7 +156,7 @@ theorem readChunk_written_dict (cfg : Config) (leaf : LeafInfo) (dl : DictLayout
   have hcount := pages_count_le leaf (some dl.values) pls es w (fun p hp => (hpl p hp).1) hw
   have hall := readDataPages_written_gen cfg m.codec leaf (some dl.values) m.encodings hdv pls es w (w.bytes.length + 1) henc hpl hw
     hwfe (by omega) (by omega) hes (fun e he => ho e (by simp [he])) (by omega)
-  obtain ⟨p, hraw, hty, hrest, hsize, kh, hkh, hdec⟩ := dictPage_written cfg leaf dl dp w.bytes hd hdw hvalid (by omega) (by omega)
+  obtain ⟨p, hraw, hty, hrest, hsize, _, kh, hkh, hdec⟩ := dictPage_written cfg leaf dl dp w.bytes hd hdw hvalid (by omega) (by omega)
     (fun e he => ho e (by simp [he]))
   rw [hdc] at hraw
   have hfirst := wellFormedChunk_first hwf
@@ -170,5 +173,50 @@ theorem readChunk_written_dict (cfg : Config) (leaf : LeafInfo) (dl : DictLayout
   cases es with
   | nil => rfl
   | cons e t => simp [hfirst e t rfl]
+
+/-! ### `total_uncompressed_size` of the chunk, as the independent reader evaluates it -/
+
+/-- chunk without dictionary page -/
+theorem chunkUsize_written_nodict (cfg : Config) (codec : Nat) (leaf : LeafInfo) (pls : List PageLayout) (es : List Entry)
+    (w : Written) (hpl : ∀ pl ∈ pls, PageAdm pl ∧ pl.comp.codec = codec) (hw : writeDataPages leaf none pls es = some w)
+    (hwf : wellFormedChunk leaf es = true) (hlen : w.bytes.length < 2 ^ 31) (hus : w.usize < 2 ^ 31) (hes : es.length < 2 ^ 31)
+    (ho : ∀ e ∈ w.oracle, oracleLookup cfg.oracle e.1 = some e.2) :
+    chunkUsize (w.bytes.length + 1) w.bytes = some w.usize := by
+  have hwfe : ∀ e ∈ es, wellFormedEntry leaf e = true := by
+    unfold wellFormedChunk at hwf
+    simp only [Bool.and_eq_true, List.all_eq_true] at hwf
+    exact hwf.1
+  have hdv : ∀ d, (none : Option (List Bytes)) = some d → ∀ v ∈ d, v.length < 2 ^ 31 := fun d h => by cases h
+  have hcount := pages_count_le leaf none pls es w (fun p hp => (hpl p hp).1) hw
+  exact chunkUsize_written_gen cfg codec leaf none hdv pls es w (w.bytes.length + 1) hpl hw hwfe hlen hus hes ho (by omega)
+
+/-- chunk with a dictionary page: its header and uncompressed body count as well -/
+theorem chunkUsize_written_dict (cfg : Config) (codec : Nat) (leaf : LeafInfo) (dl : DictLayout) (pls : List PageLayout)
+    (es : List Entry) (dp w : Written)
+    (hd : DictAdm dl) (hdc : dl.comp.codec = codec) (hdw : writeDictPage leaf dl = some dp)
+    (hvalid : ∀ v ∈ dl.values, validValue leaf v = true)
+    (hpl : ∀ pl ∈ pls, PageAdm pl ∧ pl.comp.codec = codec) (hw : writeDataPages leaf (some dl.values) pls es = some w)
+    (hwf : wellFormedChunk leaf es = true) (hlen : dp.bytes.length + w.bytes.length < 2 ^ 31)
+    (hus : dp.usize + w.usize < 2 ^ 31) (hes : es.length < 2 ^ 31)
+    (ho : ∀ e ∈ dp.oracle ++ w.oracle, oracleLookup cfg.oracle e.1 = some e.2) :
+    chunkUsize (dp.bytes.length + w.bytes.length + 1) (dp.bytes ++ w.bytes) = some (dp.usize + w.usize) := by
+  have hwfe : ∀ e ∈ es, wellFormedEntry leaf e = true := by
+    unfold wellFormedChunk at hwf
+    simp only [Bool.and_eq_true, List.all_eq_true] at hwf
+    exact hwf.1
+  have hbody := writeDictPage_body_le hd hdw
+  have hdv : ∀ d, some dl.values = some d → ∀ v ∈ d, v.length < 2 ^ 31 := by
+    intro d h; cases h
+    exact value_length_lt leaf dl.values hvalid (by omega)
+  have hcount := pages_count_le leaf (some dl.values) pls es w (fun p hp => (hpl p hp).1) hw
+  have hall := chunkUsize_written_gen cfg codec leaf (some dl.values) hdv pls es w (dp.bytes.length + w.bytes.length) hpl hw
+    hwfe (by omega) (by omega) hes (fun e he => ho e (by simp [he]))
+    (by have := List.length_pos_iff.mpr (writeDictPage_ne_nil hd hdw); omega)
+  obtain ⟨p, hraw, _, hrest, _, husz, _⟩ := dictPage_written cfg leaf dl dp w.bytes hd hdw hvalid (by omega) (by omega)
+    (fun e he => ho e (by simp [he]))
+  have hne : dp.bytes ++ w.bytes ≠ [] := by
+    intro h; exact writeDictPage_ne_nil hd hdw (List.append_eq_nil_iff.mp h).1
+  rw [chunkUsize_of_raw cfg _ _ p _ hne hraw, hrest, hall, husz]
+  rfl
 
 end Carquet.Proofs.SpecFile
